@@ -69,7 +69,7 @@ func runC15(c *Ctx, variant int) {
 	w.Stat(c15pKind[mv])
 	maxSize := w.Pick(1024, 300, 4096)
 	d.ws.SetMaxMessageSize(maxSize)
-	nMsgs := w.Range(1, 5)
+	nMsgs := w.Range(1, c.Deep(5))
 	if variant >= 0 {
 		nMsgs = 1 + variant%3
 	}
